@@ -508,12 +508,10 @@ def r9_precedence(ctx: Ctx) -> None:
     proj = ctx.proj
     # reference order from categorize_amount's own chain
     ca = proj.func('classification.categorize_amount')
-    ref = _chain_order(ca.node)
-    if ref != [SPECIAL_ORDER]:
-        # C06 decides whether categorize_amount itself is right; here only agreement matters
-        ref_order = ref[0] if ref else SPECIAL_ORDER
-    else:
-        ref_order = SPECIAL_ORDER
+    ref = [r for r in _chain_order(ca.node) if len(r) >= 3]
+    # C06 decides whether categorize_amount itself is right; here only agreement matters.  When categorize_amount does not spell its precedence as a
+    # chain of three tests (a lookup table, say), the documented order is the reference.
+    ref_order = ref[0] if ref else SPECIAL_ORDER
     n = 0
     for short in ('report', 'analyzer', 'commands.explain', 'commands.run', 'commands.discover'):
         mi = proj.module(short)
